@@ -16,8 +16,8 @@ writer treats every ASCII byte; and for whole documents: everything the compact 
 is accepted by the strict parser and parses to exactly the document's tree
 (`c03_json_output_parses_to_its_tree`), and everything the ROR2 writers emit is the rendering of a
 well-formed raw-token tree (`c03_ror2_output_is_wellformed_tree`), which the reader reads as that
-tree (`bridge`, Proofs/Ror2Bridge.lean). The pretty JSON writer and the "conversely" direction
-(reference documents in other legal spellings) are decided by the harness. -/
+tree (`bridge`, Proofs/Ror2Bridge.lean); the pretty JSON writer's output parses to the same tree.
+The "conversely" direction (reference documents in other legal spellings) is decided by the harness. -/
 namespace Restli.Codec
 open Escape
 
@@ -94,6 +94,11 @@ that strconv's float text is one JSON number token -/
 theorem c03_json_output_parses_to_its_tree (N : NumLaws) (d : Doc) (hok : DocTextOK d) :
     Json.parse (renderJson d) = some (treeOf jsonEnc d) :=
   parse_renderJson N d hok
+
+/-- the same for the pretty writer: its output parses to the same tree as the compact one -/
+theorem c03_json_pretty_output_parses_to_its_tree (N : NumLaws) (d : Doc) (hok : DocTextOK d) :
+    Json.parse (renderPretty 0 d) = some (treeOf jsonEnc d) :=
+  parse_renderPretty N d hok
 
 /-- the JSON string writer against the strict parser, for every valid UTF-8 byte string and
 whatever follows: quotes, backslashes, control characters, `<`, `>`, `&`, U+2028/U+2029 and all
